@@ -97,6 +97,26 @@ def gen_C20(tier, seed):
                 other[rng.randrange(len(other))] += 100
             b.case(elem, [root, "@ clone", f"@ eq {c} {r} {fl(d)}", f"@ eq {c} {r} {fl(other)}",
                           f"@ eq {r} {c} {fl(d)}", "@ into_vec", "@ dump"])
+            # near misses: the same cells under every other factorisation of the product, a row / column fewer (prefix), a row /
+            # column more — `==` must be false for all of them, and a true `==` must come with an equal hash
+            near = []
+            n = c * r
+            for c2 in range(0, n + 1):
+                if c2 and n % c2 == 0 and (c2, n // c2) != (c, r):
+                    near.append(f"@ eq {c2} {n // c2} {fl(d)}")
+            if r > 1:
+                near.append(f"@ eq {c} {r - 1} {fl(d[:c * (r - 1)])}")
+                near.append(f"@ eq {c} {r - 1} {fl(d[c:])}")
+            if c > 1 and r > 0:
+                keep = [x for j, x in enumerate(d) if j % c != c - 1]
+                near.append(f"@ eq {c - 1} {r} {fl(keep)}")
+            if n:
+                near.append(f"@ eq {c} {r + 1} {fl(d + d[:c])}")
+                near.append(f"@ eq {c + 1} {r} {fl([x for row in range(r) for x in (d[row * c:(row + 1) * c] + [d[row * c]])])}")
+                near.append("@ eq 0 0 -")
+            else:
+                near.append("@ eq 1 1 5")
+            b.case(elem, [root] + near)
             b.case(elem, [root, "@ into_box", "@ dump"])
             for k in sorted(set([0, 1, c * r, c * r + 1])):
                 b.case(elem, [root, f"@ into_iter {k}", "@ dump"])
@@ -695,8 +715,17 @@ def gen_C04(tier, seed):
                        f"rowset 0 {cc} 4252", f"rowset {rr} 0 4253", f"colset {cc} 0 4254", f"colset 0 {rr} 4255",
                        f"copy_within 0 0 {cc} {rr} 1 0", f"copy_within 0 0 {cc + 1} {rr} 0 0", f"translate {cc + 1} 0", f"translate 0 {rr + 1}",
                        f"sort_by_row {rr}", f"sort_by_col {cc}", f"col_mut {cc} n", f"col_mut 0 i{rr}"]
+                # mutable iteration: every word of two steps over next / next_back / nth / nth_back followed by collecting what is
+                # left from either end; every yielded cell is written to (the harness bumps it), so a cursor that drifts into the
+                # gap between the view's rows shows up as a changed cell outside the view
+                steps2 = ["n", "b", "N0", "N1", "B0", "B1"]
+                words = [f"{a},{b2},{fin}" for a in steps2 for b2 in steps2 for fin in ("f", "r")]
+                if tier == "quick":
+                    words = sample(rng, words, 20)
+                iter_ops = [f"rows_mut {w}" for w in words] + [f"cells_mut {w}" for w in words] + \
+                           [f"col_mut {rng.randrange(cc) if cc else 0} {w}" for w in words[:len(words) // 2]]
                 lines = []
-                for op in ops + bad:
+                for op in ops + bad + iter_ops:
                     lines += [root, f"{rv} {op}"]
                 if n <= 12:
                     for mc in range(cc + 1):
@@ -730,6 +759,17 @@ def gen_C18(tier, seed):
                 if C * R:
                     lines += [f"@s({C},{R},{C * R}) roundtrip str", f"@S({C},{R},{C * R}) roundtrip value"]
             b.case(elem, lines)
+    # arrays and views large enough to cross typical buffer / preallocation thresholds (256, 1024, 4096, 65536 cells)
+    big = [(17, 16), (65, 64), (1, 5000), (5000, 1)] + ([(257, 256), (300, 300)] if tier == "thorough" else [])
+    for (C, R) in big:
+        d = [(7 * j + 3) % 4294967296 for j in range(C * R)]
+        root = f"@ from_vec {C} {R} {fl(d)}"
+        lines = [root] + [f"@ roundtrip {t}" for t in TRANSPORTS]
+        lines += [f"@w(0,0,{C},{R}) roundtrip {t}" for t in TRANSPORTS]
+        lines += [f"@v(0,0,{C},{R}) roundtrip str", f"@s({C},{R},{C * R}) roundtrip reader"]
+        if C > 2 and R > 2:
+            lines += [f"@w(1,1,{C},{R}) roundtrip {t}" for t in TRANSPORTS]       # an interior (strided) window just below the full size
+        b.case("u32", lines)
     return b.cases
 
 
@@ -898,8 +938,43 @@ def hist_ops(rng, C, R, k, elem="u32"):
     """one random, mostly valid operation on an owned array of shape (C,R); returns (line, newC, newR)"""
     def maybe_bad(x, dim):
         return x if rng.random() < 0.88 else rng.choice([dim, dim + 1, U64])
-    choice = rng.random()
     n = C * R
+    if rng.random() < 0.09:
+        # caller code that panics or lies, and forgotten drains, in the middle of a history (C01/C05/C11/C12 interleaved with
+        # everything else): the tracked shape follows what the repaired crate leaves behind
+        kind = rng.choice(["row_panic", "push_row_panic", "col_panic", "row_lie", "col_lie", "row_leak", "col_leak"])
+        def ev_with_panic(L):
+            pos = rng.randrange(L) if L else 0
+            xs = [str(v) for v in uniq(L, k)]
+            if L:
+                xs[pos] = "!"
+            return ",".join(xs) if xs else "!"
+        if kind == "row_panic":
+            L = C if R else rng.randrange(1, 4)
+            i = rng.randrange(R + 1)
+            return (f"@ insert_row {i} {L} {ev_with_panic(L)}", (C, i) if i > 0 else (0, 0))
+        if kind == "push_row_panic":
+            L = C if R else rng.randrange(1, 4)
+            return (f"@ push_row {L} {ev_with_panic(L)}", (C, R) if R > 0 else (0, 0))
+        if kind == "col_panic":
+            L = R if C else rng.randrange(1, 4)
+            i = rng.randrange(C + 1)
+            return (f"@ insert_col {i} {L} {ev_with_panic(L)}", (0, 0))
+        if kind == "row_lie" and R > 0:
+            claimed = rng.choice([C + 1, max(C - 1, 0), 2**63, U64])
+            return (f"@ insert_row {rng.randrange(R + 1)} {claimed} {fl(uniq(C, k))}", (C, R))
+        if kind == "col_lie" and C > 0:
+            claimed = rng.choice([R + 1, max(R - 1, 0), 2**63, U64])
+            return (f"@ insert_col {rng.randrange(C + 1)} {claimed} {fl(uniq(R, k))}", (C, R))
+        if kind == "row_leak" and R > 0:
+            i = rng.randrange(R)
+            w = ",".join(rng.choice(["n", "b", "l"]) for _ in range(rng.randrange(0, C + 2))) or "-"
+            return (f"@ remove_row {i} {w} leak", (C, i) if i > 0 else (0, 0))
+        if kind == "col_leak" and C > 0:
+            i = rng.randrange(C)
+            w = ",".join(rng.choice(["n", "b", "l"]) for _ in range(rng.randrange(0, R + 2))) or "-"
+            return (f"@ remove_col {i} {w} leak", (0, 0))
+    choice = rng.random()
     if choice < 0.13:
         L = C if R else rng.randrange(0, 4)
         Lc = L if rng.random() < 0.9 else L + 1
@@ -1048,11 +1123,11 @@ def generate(pid, tier, seed):
 
 NT = "; a step counts as distinct/non-trivial by the pair (operation line, root state before it)"
 RULES = {
-    "C01": "random histories of 10-40 mostly-valid operations (structural, in-place, rejected calls, views, iterators) on u32 / ledgered cell / zero-sized elements from shapes <=3x3, `lens` after every step; plus exhaustive depth-3 (4) words over 14 structural operations from 5 tiny shapes" + NT,
-    "C20": "every constructor x dims in {0..4(5),2^32,2^63,2^64-1}^2 x buffer lengths product-1..product+1 x {u32,cell}; slice-built views; conversions on all shapes <=4x4" + NT,
+    "C01": "random histories of 10-40 mostly-valid operations (structural, in-place, rejected calls, views, iterators; about one step in eleven is an iterator that panics or lies about its length, or a drain that is leaked) on u32 / ledgered cell / zero-sized elements from shapes <=3x3, `lens` after every step; plus exhaustive depth-3 (4) words over 14 structural operations from 5 tiny shapes" + NT,
+    "C20": "every constructor x dims in {0..4(5),2^32,2^63,2^64-1}^2 x buffer lengths product-1..product+1 x {u32,cell}; slice-built views; conversions on all shapes <=4x4; == / hash against the same cells under every other factorisation, a row or column fewer (prefix / suffix) and a row or column more" + NT,
     "C02": "all shapes <= 4x4 (5x5), receivers root/ext/view/view_mut/nested (sampled windows), coordinates in {0..dim+1, 2^32, 2^63, 2^64-1, ceil(2^64/stride)..}; every checked accessor and its mutable form; unchecked getters on valid coordinates" + NT,
     "C03": "all parents <= 3x3 (4x4) x all (start,end) in {0..dim+1}^4 x 3 receiver kinds, nested to depth 3 (sampled), slice-built roots, writes through the innermost mutable view" + NT,
-    "C04": "all parents <= 4x4 (5x5), sampled windows incl. nested, 27 mutating operations each from a fresh root; the whole parent is compared" + NT,
+    "C04": "all parents <= 4x4 (5x5), sampled windows incl. nested, 27 mutating operations with valid and out-of-range arguments, and mutable iteration (rows_mut / cells_mut / col_mut) along sampled (all, thorough) two-step words over n,b,N0,N1,B0,B1 then collect from either end, each from a fresh root; the whole parent is compared" + NT,
     "C05": "random histories on ledgered cells and zero-sized elements; every conversion (into_vec/box/iter k, clone, to_owned, constructors replacing an array) on all shapes <=3x3; drop list, live count and double-drop counter compared after every step and at the final drop" + NT,
     "C06": "all shapes <= 4x4 (5x5) x index 0..dim+1 x length 0..dim+1 x {u32,cell,zst} x {exact, reserved, shrunk} capacity; push twice; random build-up histories from the empty array" + NT,
     "C07": "all shapes <= 4x4 (5x5) x every index x (front,back) consumption splits with len() in between + random words over n,b,l x {u32,cell,zst}; out-of-range and huge indices; pop until empty and beyond" + NT,
@@ -1066,7 +1141,7 @@ RULES = {
     "C15": "all shapes <= 5x5 (8x8) x all mids 0..dim+1 and 2^64-1 on root, ext and views; arrays with 6..12 (16) rows x 1,3,4 columns x every row mid (every gcd pattern); flips" + NT,
     "C16": "all shapes <= 4x4 (5x5) x 6 row variants x every row index 0..dim+1 and 2^64-1 x root/ext/views, keys drawn from a 3-letter alphabet with distinct cells (all tie patterns over the repetitions); wide arrays 40-70 (24-260) columns x 2 rows with a 2-letter alphabet" + NT,
     "C17": "as C16 for the 5 column variants (tall arrays)",
-    "C18": "all shapes <= 4x4 (6x6), 1x9, 9x1, 7x5 with boundary u32 values x {u32,cell} x 4 transports; views, shared views and slice-built views (u32)" + NT,
+    "C18": "all shapes <= 4x4 (6x6), 1x9, 9x1, 7x5 with boundary u32 values x {u32,cell} x 4 transports; views, shared views and slice-built views (u32); plus arrays and full / interior windows of 17x16, 65x64, 1x5000, 5000x1 (257x256, 300x300) cells, crossing typical preallocation thresholds" + NT,
     "C19": "600 (6000) grammar-generated documents (missing / duplicated / unknown / escaped keys, dimension values 0..6, 2^32, 2^63, 2^64-1, 2^64, -1, 1.5, 1e2, \"3\", null, [], {}, true, 01; data length product-1..product+2, ill-typed elements, non-array data, non-object documents, truncated text) x 4 transports; well-formed documents on ledgered cells" + NT,
 }
 
